@@ -120,6 +120,7 @@ Record dev := mkDev {
   (* ghost (not part of the Python state, never read by the model): the identities of the parts this device has
      generated (Source), received for good (Sink), lost to a failure (PartProcessor) *)
   d_made : list Z; d_delivered : list Z; d_lost : list Z;
+  d_accepts : Z;                  (* ghost: how many items this device has taken in (C15: one received-part record each) *)
   (* false: declared by the scenario but not constructed yet (a device created while the simulation is in progress) *)
   d_live : bool }.
 
@@ -128,14 +129,14 @@ Record dev := mkDev {
    d_shut; d_req; d_reserved; d_waiting_res; d_on_finish; d_on_shutdown; d_on_restore; d_uptime; d_last_restore; d_inuse; d_last_use; d_wo_dur; d_wo_cap; d_wo_cost;
    d_buf; d_level; d_capacity; d_min_delay;
    d_budget; d_produced; d_cost_produced; d_gen_value; d_gen_quality; d_gen_count; d_gen_batch; d_gen_pattern;
-   d_collect; d_collected; d_received; d_value_received; d_batch_size; d_inprog; d_decider; d_group; d_made; d_delivered; d_lost; d_live>.
+   d_collect; d_collected; d_received; d_value_received; d_batch_size; d_inprog; d_decider; d_group; d_made; d_delivered; d_lost; d_accepts; d_live>.
 
 Definition blank_dev (k : kind) : dev :=
   mkDev k [] [] false 0 [] None 0 0 None None false []
         false None None false [] [] [] 0 (Some 0) 0 None 0 0 0
         [] 0 None 0
         None 0 0 0 8 0 0 []
-        false [] 0 0 None None DAlways 0 [] [] [] true.
+        false [] 0 0 None None DAlways 0 [] [] [] 0 true.
 
 Record group := mkGroup { g_in : Z; g_out : Z; g_paths : list Z }.
 
